@@ -5,6 +5,7 @@ the RNG tape, and records one trace per scenario in the vocabulary of
 spec/Trace_IncExplainer.tla (DESIGN.md Appendix A).  All numbers are reduced mod P.
 """
 import copy
+import sys
 import random
 import warnings
 from fractions import Fraction as F
@@ -65,6 +66,12 @@ class Scenario:
         self.ignore_feature = kw.get("ignore_feature", None)   # 1-based index the model ignores
         self.stream = kw.get("stream", [])                # list of (xvals list, y, n_override or None, upd bool)
         self.faults = kw.get("faults", {})                # call index (0-based) -> callback ordinal (1-based)
+        # call index -> ordinal (1-based) of the invocation of any OTHER public method of the imputer / storage object the
+        # explainer holds (get_data, and whatever hook a later version of the library calls on them): those are callbacks too
+        self.aux_faults = kw.get("aux_faults", {})
+        # sparse observations: calls explained with update_storage=False lack one of the explained features (the model reads
+        # a missing feature as 0, river style); stored observations stay complete - the imputers sample every feature from them
+        self.sparse = kw.get("sparse", False)
         self.numeric = kw.get("numeric", "fraction")      # "fraction" | "float"
         self.loss_offset = kw.get("loss_offset", 0)       # added to every loss value (C20 scenarios)
         self.seed = kw.get("seed", 0)
@@ -97,6 +104,7 @@ class Scenario:
         d["loss_offset"] = str(self.loss_offset)
         d["stream"] = [[[str(v) for v in xs], y, n, u] for (xs, y, n, u) in self.stream]
         d["faults"] = {str(k): v for k, v in self.faults.items()}
+        d["aux_faults"] = {str(k): v for k, v in self.aux_faults.items()}
         return d
 
     @staticmethod
@@ -108,6 +116,7 @@ class Scenario:
         d["loss_offset"] = F(str(d.get("loss_offset", 0)))
         d["stream"] = [([F(v) for v in xs], y, n, u) for (xs, y, n, u) in d["stream"]]
         d["faults"] = {int(k): v for k, v in d["faults"].items()}
+        d["aux_faults"] = {int(k): v for k, v in d.get("aux_faults", {}).items()}
         if d.get("storage") is not None:
             d["storage"] = tuple(d["storage"])
         return Scenario(**d)
@@ -155,10 +164,18 @@ class Recorder:
         self.draws = []
         self.cb = 0                 # callback ordinal inside the call (model, loss, impute, store)
         self.fault_at = None
+        self.aux = 0                # ordinal of invocations of other public methods of the imputer / storage objects
+        self.aux_fault_at = None
         self.fault_type = getattr(self, "fault_type", 0)
         self.in_imp = 0
         self.imp_done = 0
         self.raised_at = None
+
+    def aux_callback(self, kind):
+        self.aux += 1
+        if self.aux_fault_at is not None and self.aux == self.aux_fault_at:
+            self.raised_at = (kind, 0)
+            raise BOOMS[self.fault_type % len(BOOMS)]("injected fault in %s (auxiliary invocation #%d)" % (kind, self.aux))
 
     def callback(self, kind):
         self.cb += 1
@@ -197,6 +214,8 @@ def build(sc):
         return labels[k]
 
     def xvec(x):
+        if sc.sparse:
+            return [x.get(nm, conv(F(0))) for nm in names]
         return [x[nm] for nm in names]
 
     def raw_model(x):
@@ -472,6 +491,32 @@ def run_scenario(sc, tape_mode="log", script=None, keep_raw=False, provider=None
         return orig_update(*a, **k)
     st_obj.update = update
 
+    # every other public method of the two user-suppliable objects is a fault point as well (not counted as a callback
+    # of the specification: a fault there is judged by the pre / post clauses of a call that raised)
+    def _aux(obj, label, skip):
+        import inspect
+        for nm in dir(obj):
+            if nm.startswith("_") or nm == skip:
+                continue
+            try:
+                meth = getattr(obj, nm)
+            except Exception:
+                continue
+            if not inspect.ismethod(meth):
+                continue
+
+            def wrapper(*a, __m=meth, __k="%s.%s" % (label, nm), **k):
+                # only invocations made by library code count (the harness' own projections read the storage too)
+                if "/ixai/" in sys._getframe(1).f_code.co_filename.replace("\\", "/"):
+                    rec.aux_callback(__k)
+                return __m(*a, **k)
+            try:
+                setattr(obj, nm, wrapper)
+            except Exception:
+                pass
+    _aux(imp_obj, "imputer", "impute")
+    _aux(st_obj, "storage", "update")
+
     cur = {"x": None, "y": None}
     calls = []
     max_loss = [0.0]
@@ -505,7 +550,12 @@ def run_scenario(sc, tape_mode="log", script=None, keep_raw=False, provider=None
         for ci, (xs, y, n_over, upd) in enumerate(sc.stream):
             if provider is not None:
                 tape.script.extend(provider.on_begin(ci, int(ex.seen_samples)))
-            pairs = list(zip(names, xs))
+            if sc.sparse and not upd and n_over != "manual" and ci >= 1 and sc.d >= 2 and not sc.positional:
+                drop = (sc.seed + ci) % sc.d
+                xs = [F(0) if j == drop else v for j, v in enumerate(xs)]
+                pairs = [(nm, v) for j, (nm, v) in enumerate(zip(names, xs)) if j != drop]
+            else:
+                pairs = list(zip(names, xs))
             if sc.shuffle_keys:
                 random.Random(sc.seed * 31 + ci).shuffle(pairs)
             x = {nm: conv(v) for nm, v in pairs}
@@ -517,6 +567,7 @@ def run_scenario(sc, tape_mode="log", script=None, keep_raw=False, provider=None
             rec.fault_type = sc.fault_type + ci
             rec.reset()
             rec.fault_at = sc.faults.get(ci)
+            rec.aux_fault_at = sc.aux_faults.get(ci)
             pre = proj.state()
             rows_before, _ = proj.storage_rows()
             self_in_bg = rows_before is not None and any(r is x for r in rows_before)
@@ -693,6 +744,10 @@ def random_scenario(rng, cls=None, quickness=1, **force):
               bigger=(cls == "sage" and rng.random() < 0.3), storage=storage,
               store_targets=rng.random() < 0.5, imputer=imputer, nlab=nlab, model_seed=rng.randrange(10 ** 6),
               stream=stream, seed=rng.randrange(2 ** 31))
+    if rng.random() < 0.2 and d >= 2:
+        # sparse observations need calls that do not store them: a third of the later calls
+        kw["sparse"] = True
+        kw["stream"] = [(xs, y, n, (u and rng.random() < 0.6) or i == 0) for i, (xs, y, n, u) in enumerate(stream)]
     # the sign of the losses: a share of the scenarios has negative (and large negative) loss values
     kw["loss_offset"] = rng.choice([0, 0, 0, -50, -10 ** 4, 7]) * F(kw["loss_scale"])
     kw.update(force)
